@@ -15,7 +15,7 @@ use crate::proto::{Ctx, attrs};
 pub fn meta() -> Meta {
     Meta {
         level: "exploration",
-        rule: "exhaustive enumeration of operand tuples: for each kind in {bdd,bcdd,zbdd}, each of the 6 orders of 3 variables and each thread configuration: not/8 binary connectives on all 256 resp. 65536 tuples, ite on all triples of a 64-function subset closed under permutation+negation (quick) or all 2^24 triples (thorough), constants/var/not_var, eval on all 8 assignments, cofactors, satisfiable/valid; thorough adds a 4-variable block. A case is non-trivial when all operands are non-constant and pairwise distinct (no terminal/equality shortcut at the root); every enumerated tuple is distinct.",
+        rule: "exhaustive enumeration of operand tuples: for each kind in {bdd,bcdd,zbdd}, each of the 6 orders of 3 variables and each thread configuration: not/8 binary connectives on all 256 resp. 65536 tuples, ite on all triples of a 64-function subset closed under permutation+negation (quick) or all 2^24 triples (thorough), constants/var/not_var, eval on all 8 assignments, cofactors, satisfiable/valid; every connective recomputed on the pairs of a sparse 18-function live set after a collection (three rounds) with a cache that keeps every entry; negation / connectives / constants / variables on the old handles after add_vars(1) (with the same operations computed before it); thorough adds a 4-variable block. A case is non-trivial when all operands are non-constant and pairwise distinct (no terminal/equality shortcut at the root); every enumerated tuple is distinct.",
         assumptions: vec![
             "operands are built through DiagramRules::reduce + then_insert (route A), not through the operators under test".into(),
             "results are read back by the harness's own interpreter over Manager::get_node; eval is compared against it separately".into(),
@@ -47,6 +47,12 @@ pub fn shards(tier: &str) -> Vec<String> {
             }
         }
     }
+    // operations on old handles after add_vars (negation / the connectives were computed before as well)
+    for k in ["bdd", "bcdd", "zbdd"] {
+        for o in model::perms(3) {
+            v.push(format!("{k}:{}:t1:addvars", model::order_str(&o)));
+        }
+    }
     if tier == "thorough" {
         for k in ["bdd", "bcdd", "zbdd"] {
             for o in ["0123", "3210", "2031"] {
@@ -65,6 +71,15 @@ pub fn run(ctx: &mut Ctx) {
     let order = model::parse_order(parts[1]);
     let tc = ThreadCfg::parse(parts[2]);
     let n4 = parts.get(3).map(|s| s.to_string());
+    if n4.as_deref() == Some("addvars") {
+        match parts[0] {
+            "bdd" => run_addvars::<Bdd>(ctx, &order, tc),
+            "bcdd" => run_addvars::<Bcdd>(ctx, &order, tc),
+            "zbdd" => run_addvars::<Zbdd>(ctx, &order, tc),
+            _ => panic!("bad shard"),
+        }
+        return;
+    }
     if let Some(o2) = n4.as_deref().and_then(|p| p.strip_prefix("re")) {
         let o2 = model::parse_order(o2);
         match parts[0] {
@@ -309,6 +324,31 @@ fn run_k<K: BoolKind>(ctx: &mut Ctx, order: &[u32], tc: ThreadCfg) {
         });
     }
 
+    // every connective on a 64 x 64 operand set with a cache large enough to keep all entries: compute and drop,
+    // collect (some results are then referenced by dead nodes only), compute everything again
+    ctx.group("connectives recomputed after a collection", |ctx| {
+        // (a sparse live set: most results and many of their inner nodes die in the collection)
+        let tabs: Vec<Tab> = model::subset3().into_iter().step_by(5).chain([0xe8u64, 0x96, 0xca, 0x1b, 0x6a]).collect();
+        let (mref, fns) = functions_of::<K>(n, &order, 1 << 16, tc, &tabs);
+        for round in 0..3 {
+            for op in BINOPS {
+                for (i, &a) in tabs.iter().enumerate() {
+                    for (j, &b) in tabs.iter().enumerate() {
+                        let r = apply_bin(op, &fns[i], &fns[j]);
+                        if round > 0 {
+                            check_result::<K>(ctx, n, &order, tc, op.name(), &[a, b], op.apply(a, b, n), r);
+                        }
+                    }
+                }
+            }
+            mref.with_manager_shared(|m| {
+                use oxidd::Manager;
+                m.gc();
+            });
+        }
+        ctx.sample(|| case::<K>(n, &order, tc, "and", &[0xe8, 0x96], 0x80, "after gc"));
+    });
+
     // ite
     let tabs: Vec<Tab> = if ctx.thorough() { (0..256).collect() } else { model::subset3() };
     let chunks: Vec<Vec<Tab>> = tabs.chunks(if ctx.thorough() { 16 } else { 64 }).map(|c| c.to_vec()).collect();
@@ -499,5 +539,55 @@ fn run_reord<K: BoolKind>(ctx: &mut Ctx, o1: &[u32], o2: &[u32], tc: ThreadCfg) 
             }
         }
         ctx.sample(|| case::<K>(n, &order, tc, "and", &[0xe8, 0x96], 0x80, &label));
+    });
+}
+
+/// All 256 functions over 3 variables; negation and the connectives are computed once (results dropped, no
+/// collection), then a fourth variable is added and everything is computed again on the old handles.
+fn run_addvars<K: BoolKind>(ctx: &mut Ctx, order: &[u32], tc: ThreadCfg) {
+    let zbdd = K::BK == BKind::Zbdd;
+    let mut order4 = order.to_vec();
+    order4.push(3);
+    // a 3-variable function seen over 4 variables: BDD/BCDD do not depend on x3; a ZBDD family contains no
+    // set with x3, i.e. the function is false wherever x3 is true
+    let ext = |t: Tab| if zbdd { t } else { t | (t << 8) };
+    ctx.group("operations after add_vars", |ctx| {
+        let (mref, fns) = all_functions::<K>(3, order, 1 << 14, tc);
+        let tabs = model::subset3();
+        for f in fns.iter() {
+            let _ = f.not();
+        }
+        for op in BINOPS {
+            for &a in &tabs {
+                for &b in &tabs {
+                    let _ = apply_bin(op, &fns[a as usize], &fns[b as usize]);
+                }
+            }
+        }
+        mref.with_manager_exclusive(|m| {
+            use oxidd::Manager;
+            m.add_vars(1);
+        });
+        let n = 4u32;
+        for (t, f) in fns.iter().enumerate() {
+            let t = t as Tab;
+            check_result::<K>(ctx, n, &order4, tc, "old_handle", &[t], ext(t), Ok(f.clone()));
+            check_result::<K>(ctx, n, &order4, tc, "not", &[t], model::not(ext(t), n), f.not());
+        }
+        for op in BINOPS {
+            for &a in &tabs {
+                for &b in &tabs {
+                    check_result::<K>(ctx, n, &order4, tc, op.name(), &[a, b], op.apply(ext(a), ext(b), n), apply_bin(op, &fns[a as usize], &fns[b as usize]));
+                }
+            }
+        }
+        mref.with_manager_shared(|m| {
+            check_result::<K>(ctx, n, &order4, tc, "t", &[], model::full(n), Ok(K::F::t(m)));
+            for v in 0..n {
+                check_result::<K>(ctx, n, &order4, tc, "var", &[v as Tab], model::var_tab(v, n), K::F::var(m, v));
+                check_result::<K>(ctx, n, &order4, tc, "not_var", &[v as Tab], model::not(model::var_tab(v, n), n), K::F::not_var(m, v));
+            }
+        });
+        ctx.sample(|| case::<K>(n, &order4, tc, "not", &[0x96], model::not(ext(0x96), n), "after add_vars"));
     });
 }
